@@ -14,7 +14,7 @@ open KotoVerif KotoVerif.Serde
 /-- an `Ext` for the non-vacuity examples (no float keys / float casts occur in them) -/
 def X0 : Ext :=
   { fmtFloat := fun _ => [], widen := fun b => b.toUInt64, narrow := fun b => b.toUInt32,
-    f2i := fun _ => 0, f2iOk := fun _ => true, i2f := fun _ => 0, i2f32 := fun _ => 0 }
+    f2i := fun _ => 0, f2iOk := fun _ => true, big2f := fun _ => 0, i2f := fun _ => 0, i2f32 := fun _ => 0 }
 
 /-! ## Koto value → serde data model → Koto value -/
 
@@ -782,5 +782,113 @@ theorem rust_roundtrip_nested_option_witness (X : Ext) :
 theorem toKoto_error_iff (X : Ext) (x : RVal) : toKoto X x = none ↔ intsFit x = false := by
   have h := toKoto_isSome X x
   cases h' : toKoto X x <;> simp_all
+
+/-! ## Nesting depth, integer literals beyond 64 bits, aliasing -/
+
+mutual
+/-- The normal form is never deeper than the value: if the first trip stays within a reader's
+nesting limit, so does the second. -/
+theorem depth_norm_le (X : Ext) : ∀ v : Val, depth (norm X v) ≤ depth v
+  | .null => Nat.le_refl _
+  | .bool _ => Nat.le_refl _
+  | .num _ => Nat.le_refl _
+  | .str _ => Nat.le_refl _
+  | .range _ _ => Nat.le_refl _
+  | .list xs => by simp only [norm, depth]; exact Nat.succ_le_succ (depthL_norm_le X xs)
+  | .tuple xs => by simp only [norm, depth]; exact Nat.succ_le_succ (depthL_norm_le X xs)
+  | .map es => by
+    simp only [norm, depth]
+    apply Nat.succ_le_succ
+    rw [depthE_le_iff]
+    intro e he
+    exact (buildMap_pres (fun _ => True) (fun w => depth w ≤ depthE es) _
+      (fun e he => ⟨trivial, depthE_norm_le X es e he⟩) e he).2
+theorem depthL_norm_le (X : Ext) : ∀ xs : List Val, depthL (normL X xs) ≤ depthL xs
+  | [] => Nat.le_refl _
+  | x :: xs => by
+    simp only [normL, depthL]
+    have h1 := depth_norm_le X x
+    have h2 := depthL_norm_le X xs
+    omega
+theorem depthE_norm_le (X : Ext) : ∀ es : List (Val × Val), ∀ e ∈ normE X es, depth e.2 ≤ depthE es
+  | [], e, he => by simp [normE] at he
+  | (k, v) :: es, e, he => by
+    simp only [normE, List.mem_cons] at he
+    simp only [depthE]
+    rcases he with he | he
+    · subst he
+      have := depth_norm_le X v
+      simp only
+      omega
+    · have := depthE_norm_le X es e he
+      omega
+end
+
+example : depth (.list [.map [(.str [97], .tuple [.null])], .num (.i 1)]) = 3 := by decide
+
+/-- **json_int_error_iff**: of the integer literals outside `i64`, JSON rejects exactly those that
+still fit `u64`; the others arrive as floats and are accepted (finding F-C20-6 — the negation of
+"out-of-range input yields an error" for the JSON reader). -/
+theorem json_int_error_iff (X : Ext) (n : Int) :
+    de (jsonInt X n) = none ↔ (i64Max < n ∧ n ≤ 18446744073709551615) := by
+  unfold jsonInt
+  by_cases h1 : inI64 n = true
+  · have h1' : i64Min ≤ n ∧ n ≤ i64Max := by simpa [inI64] using h1
+    simp only [h1, ↓reduceIte, de]
+    constructor
+    · intro h; cases h
+    · intro h; omega
+  · have h1' : ¬ (i64Min ≤ n ∧ n ≤ i64Max) := by simpa [inI64] using h1
+    simp only [h1, Bool.false_eq_true, ↓reduceIte]
+    by_cases h2 : 0 ≤ n ∧ n ≤ 18446744073709551615
+    · simp only [h2, and_self, ↓reduceIte, de]
+      have hn : ((n.toNat : Nat) : Int) = n := Int.toNat_of_nonneg h2.1
+      have hbig : i64Max < n := by
+        simp only [i64Min, i64Max] at h1' ⊢
+        omega
+      constructor
+      · intro _; simp [hbig, h2.2]
+      · intro _; exact ofI_none _ (Or.inr (by rw [hn]; exact hbig))
+    · simp only [h2, ↓reduceIte, de]
+      constructor
+      · intro h; cases h
+      · intro h
+        exfalso
+        apply h2
+        simp only [i64Max] at h
+        omega
+
+theorem json_int_inconsistent_witness (X : Ext) :
+    de (jsonInt X 18446744073709551615) = none ∧
+    de (jsonInt X 18446744073709551616) = some (.num (.f (X.big2f 18446744073709551616))) ∧
+    de (jsonInt X (-9223372036854775809)) = some (.num (.f (X.big2f (-9223372036854775809)))) := by
+  refine ⟨rfl, rfl, rfl⟩
+
+/-- **serG_cycle_is_error**: a container that lies on a cycle (a set of nodes each of which has a
+successor in the set — e.g. a list that contains itself) cannot be serialized: `serialize.rs`
+reports an error, for every amount of fuel and from every path. -/
+theorem serG_cycle_is_error (g : Graph) (C : Nat → Prop) (hC : ∀ i, C i → ∃ j, C j ∧ gSucc g i j) :
+    ∀ (fuel : Nat) (path : List Nat) (i : Nat), C i → serG g fuel path i = none
+  | 0, _, _, _ => rfl
+  | fuel + 1, path, i, hi => by
+    obtain ⟨j, hj, node, hn, hmem⟩ := hC i hi
+    simp only [serG]
+    split
+    · rfl
+    · simp only [hn]
+      have ih := serG_cycle_is_error g C hC fuel (i :: path) j hj
+      rw [Option.map_eq_none_iff]
+      apply allSome_none_of_mem
+      exact List.mem_map.mpr ⟨.ref j, hmem, by simp [ih]⟩
+
+/-- a list that contains itself, and a two-container cycle through a map -/
+example : serG [⟨false, [.leaf 1, .ref 0]⟩] 10 [] 0 = none := by decide
+example : serG [⟨false, [.ref 1]⟩, ⟨true, [.leaf 2, .ref 0]⟩] 10 [] 0 = none := by decide
+/-- sharing without a cycle is fine: the same list twice (and once more one level down) serializes as
+its unfolding -/
+example : serG [⟨false, [.ref 1, .ref 2, .ref 1]⟩, ⟨false, [.leaf 1]⟩, ⟨true, [.ref 1]⟩] 4 [] 0
+    = some (.seq [.seq [.i64 1], .map [(.str [107, 48], .seq [.i64 1])], .seq [.i64 1]]) := by rfl
+example : (ser X0 (.list [.list [.num (.i 1)], .map [(.str [107, 48], .list [.num (.i 1)])], .list [.num (.i 1)]]))
+    = some (.seq [.seq [.i64 1], .map [(.str [107, 48], .seq [.i64 1])], .seq [.i64 1]]) := by rfl
 
 end KotoVerif.C20
